@@ -246,14 +246,21 @@ theorem fs_accesses_contained (fs : FS) (c : Cfg) (path orig : Bytes) (hfs : fs 
 
 /-- **etag_only_from_the_served_files_etag_file.** When the `Etag` header is taken from a file, that
     file is `name ++ ext` for a configured `etag_file_extensions` entry, where `name` is exactly
-    the name under which the served bytes were opened (the file, or its sidecar), and the served
-    outcome itself is justified as without the etag. -/
+    the name under which the served bytes were opened (the file, or its sidecar), the etag file is
+    not hidden, and the served outcome itself is justified as without the etag. -/
 theorem etag_only_from_the_served_files_etag_file (fs : FS) (c : Cfg) (path orig n : Bytes) (o : Outcome) (id : Nat)
     (hfs : fs [] = .missing) (h : (serve fs c path orig).1 = .withEtag o n id) :
-    Justified fs c path o ∧ ∃ f ext, o.servedName = some f ∧ ext ∈ c.etagExt ∧ n = f ++ ext ∧ fs n = .file id := by
+    Justified fs c path o ∧
+      ∃ f ext, o.servedName = some f ∧ ext ∈ c.etagExt ∧ n = f ++ ext ∧ fs n = .file id ∧ c.hidden n = false := by
   have := serve_justified fs c path orig hfs
   rw [h] at this
   exact this
+
+/-- **etag_honours_hide.** The content of an etag file that matches a hide rule is never sent. -/
+theorem etag_honours_hide (fs : FS) (c : Cfg) (path orig n : Bytes) (o : Outcome) (id : Nat)
+    (hfs : fs [] = .missing) (h : (serve fs c path orig).1 = .withEtag o n id) : c.hidden n = false := by
+  obtain ⟨_, _, _, _, _, _, _, hh⟩ := etag_only_from_the_served_files_etag_file fs c path orig n o id hfs h
+  exact hh
 
 /-- `/srv/a.txt` with its etag file -/
 def etFS : FS := fun n =>
@@ -269,22 +276,17 @@ def etCfg : Cfg :=
 example : (serve etFS { etCfg with hide := [] } (str "/a.txt") (str "/a.txt")).1
     = .withEtag (.file (str "/srv/a.txt") 1) (str "/srv/a.txt.etag") 2 := by decide
 
-/-
-**etag_honours_hide** — full statement (violated by the code, known finding
-`hidden-etag-file-served`):
+-- hidden by `*.etag`: no etag file is used
+example : (serve etFS etCfg (str "/a.txt") (str "/a.txt")).1 = .file (str "/srv/a.txt") 1 := by decide
 
-    (serve fs c path orig).1 = .withEtag o n id → c.hidden n = false
--/
-
-/-- **etag_honours_hide_full_fails.** The etag file matches the hide rule `*.etag`: requested
-    directly it is 404, it is not listed — and its content is still sent in the `Etag` header of
-    `/a.txt`. -/
-theorem etag_honours_hide_full_fails :
+/-- **etag_honours_hide_old_code_fails.** The lookup as it was (`findEtagOld`): the etag file
+    matches the hide rule `*.etag` — requested directly it is 404, it is not listed — and its
+    content was still chosen for the `Etag` header of `/a.txt`. -/
+theorem etag_honours_hide_old_code_fails :
     etCfg.hidden (str "/srv/a.txt.etag") = true ∧
     (serve etFS etCfg (str "/a.txt.etag") (str "/a.txt.etag")).1 = .notFound ∧
     (serve etFS etCfg (str "/") (str "/")).1 = .listing (str "/srv") [str "a.txt"] ∧
-    (serve etFS etCfg (str "/a.txt") (str "/a.txt")).1
-      = .withEtag (.file (str "/srv/a.txt") 1) (str "/srv/a.txt.etag") 2 := by decide
+    (findEtagOld etFS (str "/srv/a.txt") etCfg.etagExt).1 = some (some (str "/srv/a.txt.etag", 2)) := by decide
 
 /-! ## precompressed sidecars -/
 
